@@ -35,7 +35,8 @@ def _multi_surface(c):
         "is_multi_section": True,
         "num_sections": len(secs),
         "sec_name": ["sec%d" % i for i in range(len(secs))],
-        "symmetry": True,
+        "symmetry": bool(c.get("sym", True)),
+        "root_section": int(c.get("root", len(secs))) - 1,
         "S_ref_type": "wetted",
         "taper": np.array([rat(s["taper"]) for s in secs]),
         "span": np.array([rat(s["span"]) for s in secs]),
